@@ -105,7 +105,7 @@ func main() {
 			usage()
 		}
 		os.MkdirAll(args[1], 0o755)
-		p, err := buildOverlay(repoRoot, args[1], engineSwaps[args[0]])
+		p, err := buildOverlay(repoRoot, args[1], engineSwaps[args[0]], yieldFiles[args[0]])
 		if err != nil {
 			fmt.Fprintln(os.Stderr, err)
 			os.Exit(2)
